@@ -192,9 +192,10 @@ def genMatricesIndex (d : MatLit) (logN : Nat) : List (List Nat) :=
 /-- non-zero entries -/
 def nz (l : List Nat) : List Nat := l.filter (· ≠ 0)
 
-/-- HELPER: contribution of one matrix in `addMatrixRotToList(pVec, rotations, N1, slots, repack)`. -/
+/-- HELPER: contribution of one matrix in `addMatrixRotToList(pVec, rotations, N1, slots, repack)`;
+    with fewer than three diagonals the non-zero diagonal indices themselves are added. -/
 def addMatrixRot (pVec : List Nat) (n1 slots : Nat) (repackFirst : Bool) : List Nat :=
-  if pVec.length < 3 then pVec
+  if pVec.length < 3 then nz pVec
   else
     let mask := if repackFirst then 2 * slots else slots
     nz (pVec.flatMap fun j => [(j / n1 * n1) % mask, j % n1])
@@ -260,13 +261,13 @@ instance (g : GalLit) : Decidable g.valid := by unfold GalLit.valid; infer_insta
 def traceRots (logN logSlots : Nat) : List Nat :=
   (List.range (logN - 1 - logSlots)).map fun t => 2 ^ (logSlots + t)
 
-/-- HELPER: `bootstrapping.Parameters.GaloisElements(params)` (as a set), to which
-    `GenEvaluationKeys` appends the conjugation element once more. -/
+/-- HELPER: `bootstrapping.Parameters.GaloisElements(params)` (as a set), which is what
+    `GenEvaluationKeys` hands to `GenGaloisKeysNew`. -/
 def generatedGalois (g : GalLit) : List Nat :=
   dedupL ((traceRots g.logN g.logSlots).map (galEl g.logN)
     ++ (helperRotations g.c2s g.logN).map (galEl g.logN)
     ++ (helperRotations g.s2c g.logN).map (galEl g.logN)
-    ++ [galConj g.logN] ++ [galConj g.logN])
+    ++ [galConj g.logN])
 
 /-- EVALUATOR: Galois keys requested during one `bootstrap` call on a ciphertext with
     `LogDimensions.Cols = LogSlots`:
@@ -320,6 +321,11 @@ structure KeyLit where
   conjInv : Bool
 deriving Repr, DecidableEq
 
+/-- `NewParametersFromLiteral` rejects a literal without auxiliary prime (`len(LogP) == 0`). -/
+def KeyLit.accepted (l : KeyLit) : Prop := 0 < l.pCount
+
+instance (l : KeyLit) : Decidable l.accepted := by unfold KeyLit.accepted; infer_instance
+
 /-- secrets that decrypt a key produced under `skN2`: when the rings are equal `skN2` is the
     residual secret extended to the larger basis. -/
 def denseProt (l : KeyLit) : List SecretKind :=
@@ -330,7 +336,7 @@ def residualProt (l : KeyLit) : List SecretKind :=
   if l.ringDiffers then [.residual] else [.residual, .dense]
 
 /-- `genEncapsulationEvaluationKeysNew(skN2)`; `none` models the Go panic of `params.P()[:1]`
-    when there is no auxiliary prime. -/
+    when there is no auxiliary prime (unreachable through `NewParametersFromLiteral`, see `KeyLit.accepted`). -/
 def genEncapsulationKeys (l : KeyLit) : Option (List KeyRec) :=
   if !l.ephemeral then some []
   else if l.pCount = 0 then none
@@ -387,10 +393,6 @@ structure SchedLit where
   s2cGroups : Nat
   /-- `len(CoeffsToSlotsFactorizationDepthAndLogScales)` -/
   c2sGroups : Nat
-  /-- `SlotsToCoeffsParameters.Depth(false)`: number of S2C matrices (sum of the group sizes) -/
-  s2cMats : Nat
-  /-- `CoeffsToSlotsParameters.Depth(false)`: number of C2S matrices -/
-  c2sMats : Nat
   /-- `Mod1ParametersLiteral.Depth()` -/
   mod1Depth : Nat
   /-- `IterationsParameters != nil && ReservedPrimeBitSize > 0` -/
@@ -417,19 +419,19 @@ def SchedLit.pCount (s : SchedLit) : Nat :=
 /-- levels after ModUp, CoeffsToSlots, EvalMod, SlotsToCoeffs of `bootstrap`, or the stage that
     returns an error.
     * `ModUp` resizes to `MaxLevel`.
-    * `CoeffsToSlotsNew` allocates at `C2S.LevelQ`; `lintrans.EvaluateSequential` calls
-      `Rescale` after EVERY matrix and `ckks.Evaluator.Rescale` unconditionally drops one prime
-      (error at level 0), so `Depth(false)` primes are consumed — not `Depth(true) = len(Levels)`.
+    * `CoeffsToSlotsNew` allocates at `C2S.LevelQ`; `dft.Evaluator.dft` evaluates the `Levels[i]`
+      matrices of a group back to back and rescales once per group (`Rescale` drops one prime and
+      errors at level 0), so `Depth(true) = len(Levels)` primes are consumed whatever the group sizes.
     * `mod1.Evaluator.EvaluateNew`: error if the level is below `Mod1.LevelQ`, drops down to it
       otherwise, consumes `Depth()`.
     * `SlotsToCoeffsNew`: error if the level is below `S2C.LevelQ`, allocates at `S2C.LevelQ`, again one
-      prime per matrix. -/
+      prime per group. -/
 def SchedLit.stages (s : SchedLit) : Except String (List Nat) :=
-  if s.c2sLevelQ < s.c2sMats then .error "err:c2s"
-  else if s.c2sLevelQ - s.c2sMats < s.mod1LevelQ then .error "err:evalmod"
+  if s.c2sLevelQ < s.c2sGroups then .error "err:c2s"
+  else if s.c2sLevelQ - s.c2sGroups < s.mod1LevelQ then .error "err:evalmod"
   else if s.mod1LevelQ - s.mod1Depth < s.s2cLevelQ then .error "err:s2c"
-  else if s.s2cLevelQ < s.s2cMats then .error "err:s2c"
-  else .ok [ s.qCount - 1, s.c2sLevelQ - s.c2sMats, s.mod1LevelQ - s.mod1Depth, s.s2cLevelQ - s.s2cMats ]
+  else if s.s2cLevelQ < s.s2cGroups then .error "err:s2c"
+  else .ok [ s.qCount - 1, s.c2sLevelQ - s.c2sGroups, s.mod1LevelQ - s.mod1Depth, s.s2cLevelQ - s.s2cGroups ]
 
 /-- level of the ciphertext returned by `Evaluate` (`none` = an error is returned): the non-iterated
     path returns the output of `bootstrap`; the iterated / PREC128 path finally drops to
